@@ -324,7 +324,7 @@ namespace {
       k.close(dot3(n, b), 0, (cs == CrystalStructure::HCP ? 1e-9L : 4 * tol), P + ".orthogonal", "n.b for " + str(list[i]));
       // Cartesian images of the indices (HCP: c/a truncated to 1.632993162 in NUMODIS)
       const auto ne = unit(cartNormal(list[i].n)), be = unit(cartDirection(list[i].b));
-      const R ctol = cs == CrystalStructure::HCP ? 1e-9L : 4 * tol;
+      const R ctol = cs == CrystalStructure::HCP ? 5e-9L : 4 * tol;  // c/a truncation: 3.4e-11 observed
       for (int j = 0; j < 3; ++j) {
         k.close(n[j], ne[j], ctol, P + ".normal.cartesian", "normal of " + str(list[i].n));
         k.close(b[j], be[j], ctol, P + ".direction.cartesian", "direction of " + str(list[i].b));
